@@ -107,7 +107,8 @@ CHECKS = {
              "C10_lookup_agrees_with_text (for EVERY well-formed text below 4 GiB and EVERY address the lookup through the index - binary search, FUNC block read back through offset and length, ordered searches for the "
              "inline chain and the line record, FILE / INLINE_ORIGIN strings through the index - equals the straightforward reading of the text) and C10_end_to_end (any chunking, stored index, agreement with the text). "
              "The index creator, the .symindex layout and the lookup through an index are modelled; Spec/BreakpadText.v is the specification of lookups. Tied to samply-symbols by generated .sym files fed in many partitions "
-             "(1-byte chunks, cuts inside line endings, random), parse/serialize round trip, stored-index vs self-indexed lookups, and lookups compared in Coq with the text specification, the model and the model's index bytes. "
+             "(1-byte chunks, cuts inside line endings, random), parse/serialize round trip, stored-index vs self-indexed lookups, and lookups compared in Coq with the text specification, the model and the model's index bytes; a further stream of files above 1 MiB (the chunk in which a symbol map indexes a file itself) "
+             "is decided by the same equalities computed in the driver and a direct reading of the generated text, not through Coq. "
              "F-C10 (INLINE_ORIGIN inside a FUNC block) was found, fixed and stays in corpus/C10.",
         note="All four clauses are proved over the models (chunk invariance, parse/serialize round trip, stored = self-indexed lookups, lookup = reading of the text on well-formed files below 4 GiB). "
              "The models of the creator, of parse_symindex_file and of the lookup path are hand-written and tied by the correspondence run (index bytes, tables read back, every lookup result). "
